@@ -460,18 +460,25 @@ fn derive_func_op_shape(def: &FuncOpDef, symbol_table: &mut BTreeMap<Rc<str>, Sh
         FuncOpDef::Map(MapFilterOpDef { func, target, pos }) => {
             let target_shape = target.derive_shape(symbol_table);
             let func_shape = func.derive_shape(symbol_table);
-            // target must be a list
+            // target must be a list, tuple or string
             match &target_shape {
                 Shape::List(_) | Shape::Hole(_) => {}
-                Shape::Narrowed(NarrowedShape {
-                    types: NarrowingShape::Any,
-                    ..
-                }) => {}
+                // Mapping over a string yields a string.
+                Shape::Str(_) => return Shape::Str(pos.clone()),
+                // Mapping over a tuple yields a tuple whose fields we can not
+                // know statically. The same goes for a narrowed target.
+                Shape::Tuple(_) | Shape::Narrowed(_) | Shape::Import(_) => {
+                    return Shape::Narrowed(NarrowedShape {
+                        pos: pos.clone(),
+                        types: NarrowingShape::Any,
+                    });
+                }
+                Shape::TypeErr(_, _) => return target_shape,
                 _ => {
                     return Shape::TypeErr(
                         pos.clone(),
                         format!(
-                            "map target must be a list, got {}",
+                            "map target must be a list, tuple or string, got {}",
                             target_shape.type_name()
                         ),
                     );
@@ -492,24 +499,24 @@ fn derive_func_op_shape(def: &FuncOpDef, symbol_table: &mut BTreeMap<Rc<str>, Sh
         FuncOpDef::Filter(MapFilterOpDef { func, target, pos }) => {
             let target_shape = target.derive_shape(symbol_table);
             let _func_shape = func.derive_shape(symbol_table);
-            // target must be a list, return type is same list type
+            // target must be a list, tuple or string, return type is the
+            // same type, a filtered tuple has a subset of the fields.
             match &target_shape {
-                Shape::List(_) => target_shape,
+                Shape::List(_) | Shape::Str(_) | Shape::TypeErr(_, _) => target_shape,
+                Shape::Tuple(_) | Shape::Narrowed(_) | Shape::Import(_) => {
+                    Shape::Narrowed(NarrowedShape {
+                        pos: pos.clone(),
+                        types: NarrowingShape::Any,
+                    })
+                }
                 Shape::Hole(_) => Shape::List(NarrowedShape {
-                    pos: pos.clone(),
-                    types: NarrowingShape::Any,
-                }),
-                Shape::Narrowed(NarrowedShape {
-                    types: NarrowingShape::Any,
-                    ..
-                }) => Shape::List(NarrowedShape {
                     pos: pos.clone(),
                     types: NarrowingShape::Any,
                 }),
                 _ => Shape::TypeErr(
                     pos.clone(),
                     format!(
-                        "filter target must be a list, got {}",
+                        "filter target must be a list, tuple or string, got {}",
                         target_shape.type_name()
                     ),
                 ),
@@ -524,18 +531,20 @@ fn derive_func_op_shape(def: &FuncOpDef, symbol_table: &mut BTreeMap<Rc<str>, Sh
             let target_shape = target.derive_shape(symbol_table);
             let acc_shape = acc.derive_shape(symbol_table);
             let func_shape = func.derive_shape(symbol_table);
-            // target must be a list
+            // target must be a list, tuple or string
             match &target_shape {
-                Shape::List(_) | Shape::Hole(_) => {}
-                Shape::Narrowed(NarrowedShape {
-                    types: NarrowingShape::Any,
-                    ..
-                }) => {}
+                Shape::List(_)
+                | Shape::Hole(_)
+                | Shape::Str(_)
+                | Shape::Tuple(_)
+                | Shape::Narrowed(_)
+                | Shape::Import(_) => {}
+                Shape::TypeErr(_, _) => return target_shape,
                 _ => {
                     return Shape::TypeErr(
                         pos.clone(),
                         format!(
-                            "reduce target must be a list, got {}",
+                            "reduce target must be a list, tuple or string, got {}",
                             target_shape.type_name()
                         ),
                     );
